@@ -306,6 +306,13 @@ class GroupCoordinatorModel:
                     same = [n for n, _ in old.protocols] == [n for n, _ in protos] and \
                         dict(old.protocols) == dict(protos)
                     if g.state == STABLE and same:
+                        if g.leader == new_id:
+                            # Brokers without KIP-814 answer a replaced static *leader* with the
+                            # cached generation and ignore the assignment it computes: partitions
+                            # it has just discovered stay unassigned until the next rebalance,
+                            # whatever the client does.  Oracles need to know.
+                            g.quiet_leader_swaps = getattr(g, "quiet_leader_swaps", 0) + 1
+                            w.probe("static_leader_replaced_without_rebalance")
                         return self._join_reply(g, m, respond, req)
                     m.join_cb = (respond, req)
                     if g.state in (STABLE, COMPLETING):
